@@ -2,6 +2,7 @@ package main
 
 import (
 	"fmt"
+	"os"
 
 	btapb "cloud.google.com/go/bigtable/admin/apiv2/adminpb"
 	btpb "cloud.google.com/go/bigtable/apiv2/bigtablepb"
@@ -71,7 +72,11 @@ func runC17(r *Run) {
 				op = btOp{Kind: "MutateRows", Table: tbl}
 				n := 150 + d.n(250)
 				for e := 0; e < n; e++ {
-					op.Entries = append(op.Entries, entryIn{Key: fmt.Sprintf("a%04d", e), Muts: mutList{setCell("f1", "q", 1000, "b")}})
+					muts := mutList{setCell("f1", "q", 1000, "b")}
+					if e%3 == 0 { // a family drop then rewrites some rows and removes others
+						muts = append(muts, setCell("f2", "q", 2000, "c"))
+					}
+					op.Entries = append(op.Entries, entryIn{Key: fmt.Sprintf("a%04d", e), Muts: muts})
 				}
 				if wi == 0 {
 					r.Probe("c17.bulk_load")
@@ -178,6 +183,11 @@ func runC17(r *Run) {
 					kind := "engines-differ"
 					if names[b] == engLdbMemGRPC && a == 1 {
 						kind = "transport-differs"
+					}
+					if os.Getenv("VERIF_C17_DEBUG") != "" {
+						for j := 2; j <= i; j++ {
+							fmt.Fprintf(os.Stderr, "DEBUG %s: %s\nDEBUG %s: %s\n", names[a], shortStr(traces[a][j], 600), names[b], shortStr(traces[b][j], 600))
+						}
 					}
 					r.Fail(kind, "", "request %d of the same program is answered differently:\n  %s: %s\n  %s: %s\n  program so far: %v", i, names[a], shortStr(traces[a][i], 1500), names[b], shortStr(traces[b][i], 1500), firstN(shapes, i+1))
 					return
